@@ -4,6 +4,15 @@ from .. import build, ctlplane, dataplane, nsplane, probeplane, runner, tlc
 from ..nsplane import E, SC, tree
 from ..common import rng, ToolError
 
+def bigblocks(name, cells, twice=False):
+    """files whose block count exceeds the pool's job queue; copied with --block-size 4096"""
+    e = E("s/big", "file", "BB-" + name); e["meta"]["sparse"] = cells
+    fs = [E("s", "dir"), e]
+    if twice:
+        e2 = E("s/big2", "file", "BB2-" + name); e2["meta"]["sparse"] = cells
+        fs.append(e2)
+    return SC(name, fs, ["s"], "d", extra=["--block-size", "4096"], cls="term")
+
 def scenarios(quick):
     many = {("f%03d" % i): "F%d" % (i % 9 + 1) for i in range(400)}
     out = [
@@ -23,6 +32,10 @@ def scenarios(quick):
         (SC("many-mkdir-fails", tree("s", dict(many, sub={"x": "F1"})), ["s"], "d", cls="term"), "mkdir:error=ENOSPC:when=1"),
         (SC("many-ftruncate-fails", tree("s", many), ["s"], "d", cls="term"), "ftruncate:error=ENOSPC:when=100"),
         (SC("link-fails", tree("s", dict(many, l=("link", "f001"))), ["s"], "d", cls="term"), "symlink:error=EACCES:when=1"),
+        # more block jobs than the pool queue holds (128), from one dense and one sparse file
+        (bigblocks("dense-300-blocks", [1] * 300), None),
+        (bigblocks("sparse-300-blocks", ([1] * 150 + [0] * 20 + [1] * 150)), None),
+        (bigblocks("two-sparse", [1] * 200 + [0] * 8, twice=True), None),
         (SC("missing-source-lib", tree("s", {"a": "F1"}), ["s", "nosuch"], "d", cls="term"), None),
     ]
     return out
